@@ -1,6 +1,7 @@
 import Proofs.Arith
 import Proofs.Holding
 import Proofs.Averages
+import Pegnet.Generated.Facts
 /-
   C07 — Conversions execute later, at the next graded block's rates, exactly.
   Property theorems only (helper lemmas are in Proofs/).
@@ -122,6 +123,18 @@ theorem cache_height_after_block (P : Params) (n : Node) (b : Block) :
 
 end Pegnet.C07
 
+namespace Pegnet.C07
+open Pegnet
+/-- the shipped schedule, regenerated from config/activations.go and fat/fat2/activations.go on every
+    run, against the values this property was read with: the height from which conversions are priced against the rolling averages. Every scenario of the harness
+    runs on a compressed schedule that overwrites these constants, so nothing else would notice one of
+    them moving; a moved height is a different protocol, not a rewrite. -/
+theorem shipped_schedule :
+    let a := Generated.activations
+    Generated.activationsComplete = true ∧ a.pip10 = 295190 := by
+  decide
+end Pegnet.C07
+
 #print axioms Pegnet.C07.convert_exact
 #print axioms Pegnet.C07.convert_is_floor
 #print axioms Pegnet.C07.rates_used
@@ -131,3 +144,4 @@ end Pegnet.C07
 #print axioms Pegnet.C07.last_rated_height_is_greatest_below
 #print axioms Pegnet.C07.block_priced_with_averages_at_last_rated_height
 #print axioms Pegnet.C07.cache_height_after_block
+#print axioms Pegnet.C07.shipped_schedule
